@@ -112,7 +112,22 @@ def run(prop: str, tier: str, seed: int, t0: float, args) -> int:
 
     # 2. correspondence + property oracle on the real code
     env = {"tier": tier, "seed": seed, "lean": lean, "findings": findings, "driver_ok": lean.driver_ok and common.DRIVER.exists()}
-    res: Result = mod.run(env)
+    try:
+        res: Result = mod.run(env)
+    except Infra:
+        raise
+    except Exception as e:  # noqa: BLE001
+        # The harness itself tripped while driving the library: on the unchanged tree this never happens, so the library no longer
+        # behaves the way the correspondence expects (an attribute missing, a value of another shape, an output the oracle cannot
+        # read). That is a broken correspondence, reported as such - with the traceback as the replay - not an infrastructure failure.
+        tb = traceback.format_exc()
+        res = Result()
+        res.rule = "(the run was cut short by an exception in the harness)"
+        res.evaluations = 1
+        res.keys = {"harness-exception", "-"}
+        res.sample({"harness_exception": f"{type(e).__name__}: {e}"})
+        res.disagreements.append(Case("corr", f"the harness raised {type(e).__name__}: {str(e)[:200]} while driving the library - the "
+                                      "library no longer behaves the way the correspondence run expects", {"traceback": tb[-3000:]}))
 
     # 3. classification
     exit_code = 0
